@@ -15,6 +15,7 @@ use super::{
 };
 use crate::{
     interp::{Interpreter, JmpWhen},
+    program::ProgramDetails,
     BindContext, ByteCode, CelError, CelResult, CelValue, CelValueDyn, Program, StringTokenizer,
 };
 
@@ -1064,11 +1065,19 @@ impl<'l> CelCompiler<'l> {
                         // Arguments are evaluated backwards so they get popped off the stack in order
                         for (a, ast) in args.into_iter().rev() {
                             args_ast.push(ast);
-                            args_node =
-                                args_node.append_result(CompiledProg::with_code_points(vec![
-                                    ByteCode::Push(a.into_unresolved_bytecode().resolve().into())
-                                        .into(),
-                                ]))
+                            // the argument becomes a code block operand, the identifiers
+                            // it reads are still read by this program
+                            let arg_details = a.details().clone();
+                            args_node = args_node.append_result(CompiledProg::new(
+                                NodeValue::Bytecode(
+                                    [ByteCode::Push(
+                                        a.into_unresolved_bytecode().resolve().into(),
+                                    )]
+                                    .into_iter()
+                                    .collect(),
+                                ),
+                                arg_details,
+                            ))
                         }
 
                         member_prime_node = args_node
@@ -1362,6 +1371,7 @@ impl<'l> CelCompiler<'l> {
                 loc,
             }) => {
                 let mut bytecode = Vec::<PreResolvedCodePoint>::new();
+                let mut details = ProgramDetails::new();
 
                 for segment in segments.iter() {
                     match segment {
@@ -1374,6 +1384,7 @@ impl<'l> CelCompiler<'l> {
                             comp.depth = self.depth;
 
                             let (e, _) = comp.parse_expression()?;
+                            details.union_from(e.details().clone());
 
                             bytecode.push(
                                 ByteCode::Push(CelValue::ByteCode(
@@ -1391,7 +1402,7 @@ impl<'l> CelCompiler<'l> {
                 bytecode.push(ByteCode::FmtString(segments.len() as u32).into());
 
                 Ok((
-                    CompiledProg::with_code_points(bytecode),
+                    CompiledProg::new(NodeValue::Bytecode(bytecode.into_iter().collect()), details),
                     AstNode::new(
                         Primary::Literal(LiteralsAndKeywords::FStringList(segments.clone())),
                         loc,
@@ -1490,12 +1501,13 @@ impl<'l> CelCompiler<'l> {
     fn check_for_const(&self, member_prime_node: CompiledProg) -> CompiledProg {
         let mut i = Interpreter::empty();
         i.add_bindings(&self.bindings);
+        let details = member_prime_node.details().clone();
         let bc = member_prime_node.into_unresolved_bytecode().resolve();
         let r = i.run_raw(&bc, true);
 
         match r {
-            Ok(v) => CompiledProg::with_const(v),
-            Err(_) => CompiledProg::with_bytecode(bc),
+            Ok(v) => CompiledProg::new(NodeValue::ConstExpr(v), details),
+            Err(_) => CompiledProg::new(NodeValue::Bytecode(bc.into()), details),
         }
     }
 }
